@@ -257,7 +257,13 @@ func hC07RestOut() {
 	}
 	// re-parse under the same rule
 	ref := refParseSimpleTemplate(tpl)
-	okm, caps := refMatch(&ref, rec.path)
+	// the path is judged as it goes on the wire (what a REST server, possibly behind a reverse proxy, parses); the
+	// request's decoded Path field must be the decoded form of that same path
+	verifObsStr("backend-wire-path", rec.wirePath)
+	if dec, derr := url.PathUnescape(rec.wirePath); derr == nil {
+		verifAssert(dec == rec.path, "C07: the REST request's URL is consistent (Path is the decoded form of the path sent on the wire)")
+	}
+	okm, caps := refMatch(&ref, rec.wirePath)
 	verifAssert(okm && len(caps) >= 1, "C07: the produced path matches the rule's template")
 	if !okm || len(caps) < 1 {
 		return
